@@ -56,7 +56,7 @@ func (in *Instance) finish() {
 		in.TimeoutS = 300
 	}
 	if in.SolverMs == 0 {
-		in.SolverMs = 20000
+		in.SolverMs = 60000
 	}
 	if in.Tier == "" {
 		in.Tier = "quick"
